@@ -957,6 +957,52 @@ def r4a(ctx: RuleCtx) -> None:
         ctx.require('call:pickle.load' in o and not _joined(c.args[0], rfl), 'run: run_exe receives the unpickled serialisation', mod, 'run', c,
                     f'run_exe({short(c.args[0])}) does not receive the object read by pickle.load', c)
     ctx.floor('run: run_exe calls', len(calls), 1)
+    _r4a_cmdline(ctx, mod, rfn, rfl)
+
+
+def _r4a_cmdline(ctx: RuleCtx, mod: Module, rfn: ast.AST, rfl: OFlow) -> None:
+    """run(): the command line wrapped in an ExecutableSerialisation is what parse_known_args left over, or a
+    tail slice of it taken under a test of its first element; no element-wise rewrite of the list."""
+    from .c03_flow import Proj
+    qn = 'run'
+    cons = [c for c in ast.walk(rfn) if isinstance(c, ast.Call) and call_name(c) == 'ExecutableSerialisation']
+    ctx.floor(f'{qn}: ExecutableSerialisation constructions', len(cons), 1)
+    cfg = CFG(rfn)
+    for c in cons:
+        a = c.args[0] if c.args else kwarg(c, 'cmd_args')
+        if not isinstance(a, ast.Name):
+            raise Undecided(f'{qn}: ExecutableSerialisation receives {short(a)} (not a local list)')
+        v = a.id
+        defs = rfl.defs.get(v, [])
+        if not defs:
+            raise Undecided(f'{qn}: {v} has no definition')
+        for d in defs:
+            if isinstance(d, Proj) and d.index == 1 and isinstance(d.value, ast.Call) and call_method(d.value) == 'parse_known_args':
+                ctx.ok(f'{qn}: {v} is the remaining argv of parse_known_args')
+                continue
+            sl = d if isinstance(d, ast.Subscript) and isinstance(d.value, ast.Name) and d.value.id == v and isinstance(d.slice, ast.Slice) else None
+            if sl is not None and isinstance(sl.slice.lower, ast.Constant) and sl.slice.lower.value == 1 and sl.slice.upper is None and sl.slice.step is None:
+                sts = [st for st in ast.walk(rfn) if isinstance(st, ast.Assign) and st.value is d]
+                nodes = [n for st in sts for n in cfg.stmt_nodes(st)]
+                guarded = False
+                for t in cfg.find(lambda n: n.kind == 'test'):
+                    for cj in _conjuncts(t.expr()):
+                        if isinstance(cj, ast.Compare) and len(cj.ops) == 1 and isinstance(cj.ops[0], ast.Eq):
+                            sides = {norm(cj.left), norm(cj.comparators[0])}
+                            if sides == {f'{v}[0]', repr('--')} and nodes and all(_only_via_edge(cfg, n, t, True) for n in nodes):
+                                guarded = True
+                ctx.require(guarded, f"{qn}: {v} = {norm(d)} only when {v}[0] == '--'", mod, qn, f'{v} = {norm(d)}',
+                            f"{v} = {norm(d)} is not guarded by a test {v}[0] == '--': the first word of the command would be dropped", d)
+                continue
+            ctx.violation(mod, qn, f'{v} = {norm(d)}',
+                          f'the command line run by the wrapper is rebuilt as `{short(d)}`: only the single leading `--` left by argparse may be removed '
+                          f"({v}[1:] under {v}[0] == '--'); any other rewrite drops or changes arguments (e.g. every `--` of `prog -x -- @INPUT@`)", d)
+        for n in ast.walk(rfn):
+            if isinstance(n, ast.Call) and isinstance(n.func, ast.Attribute) and isinstance(n.func.value, ast.Name) and n.func.value.id == v \
+                    and n.func.attr in ('remove', 'pop', 'clear', 'sort', 'reverse', 'insert', 'append', 'extend'):
+                ctx.violation(mod, qn, n, f'{short(n)} edits the command line run by the wrapper in place', n)
+            if isinstance(n, ast.Delete) and any(isinstance(t, ast.Subscript) and norm(t.value) == v for t in n.targets):
+                ctx.violation(mod, qn, n, f'{short(n)} deletes elements of the command line run by the wrapper', n)
 
 
 def r4b(ctx: RuleCtx) -> None:
@@ -1445,6 +1491,59 @@ def _env_note(ctx: RuleCtx, R: _R6) -> None:
                 ctx.note(f'{qn}: environment values on the command line are newline-tested ({why})')
 
 
+# ---------------------------------------------------------------------------
+# R7  response file of the exe wrapper: the digest in the file name is taken over the text written
+
+def _value_root(e: ast.AST, fl: OFlow, depth: int = 0) -> ast.AST:
+    """Strip `.encode(...)` and follow single-definition locals: the value whose bytes are hashed / written."""
+    while depth < 6:
+        depth += 1
+        if isinstance(e, ast.Call) and isinstance(e.func, ast.Attribute) and e.func.attr == 'encode':
+            e = e.func.value
+        elif isinstance(e, ast.Name) and e.id not in fl.params and len(fl.defs.get(e.id, [])) == 1 and \
+                (isinstance(fl.defs[e.id][0], ast.Name) or (isinstance(fl.defs[e.id][0], ast.Call) and isinstance(fl.defs[e.id][0].func, ast.Attribute)
+                                                            and fl.defs[e.id][0].func.attr == 'encode')):
+            e = fl.defs[e.id][0]
+        else:
+            break
+    return e
+
+
+def r7(ctx: RuleCtx) -> None:
+    mod = ctx.repo.module(BACKENDS)
+    qn = 'Backend.get_executable_serialisation'
+    fn = mod.func(qn)
+    fl = OFlow(fn)
+    n = 0
+    for w in ast.walk(fn):
+        if not isinstance(w, (ast.With, ast.AsyncWith)):
+            continue
+        for item in w.items:
+            c = item.context_expr
+            if not (isinstance(c, ast.Call) and call_name(c) == 'open' and c.args and isinstance(item.optional_vars, ast.Name)):
+                continue
+            hashers = sorted({o[5:-len('.hexdigest')] for o in fl.origins(c.args[0]) if o.startswith('call:') and o.endswith('.hexdigest')})
+            if not hashers:
+                continue
+            if len(hashers) != 1:
+                raise Undecided(f'{qn}: file name {short(c.args[0])} depends on several digests {hashers}')
+            h, f = hashers[0], item.optional_vars.id
+            fed = [x.args[0] for x in ast.walk(fn) if isinstance(x, ast.Call) and isinstance(x.func, ast.Attribute) and x.func.attr == 'update'
+                   and norm(x.func.value) == h and len(x.args) == 1]
+            written = [x.args[0] for x in ast.walk(w) if isinstance(x, ast.Call) and isinstance(x.func, ast.Attribute) and x.func.attr == 'write'
+                       and norm(x.func.value) == f and len(x.args) == 1]
+            if len(fed) != 1 or len(written) != 1:
+                raise Undecided(f'{qn}: {len(fed)} values fed to {h}, {len(written)} values written to {f}')
+            a, b = _value_root(fed[0], fl), _value_root(written[0], fl)
+            same = isinstance(a, ast.Name) and isinstance(b, ast.Name) and a.id == b.id and len(fl.defs.get(a.id, [])) == 1 and a.id not in fl.params
+            n += 1
+            ctx.require(same, f'{qn}: the digest naming {short(c.args[0], 30)} is taken over the value written into it ({norm(a)})', mod, qn,
+                        f'{h}.update({norm(fed[0])}) / {f}.write({norm(written[0])})',
+                        f'the file name digests `{short(a, 60)}` but the content written is `{short(b, 60)}` (not one reaching definition): two commands whose arguments '
+                        'join to the same text but split or quote differently share one response file and the later overwrites the earlier', c)
+    ctx.floor(f'{qn}: digest-named files written', n, 1)
+
+
 RULES = [
     Rule('C03.R1a', 'build statements: every value passes ninja_quote (and qf unless raw / &&)', r1a),
     Rule('C03.R1b', 'rules: command/args only through _quoter; _quoter table; shell vs rsp quoter', r1b),
@@ -1458,5 +1557,6 @@ RULES = [
     Rule('C03.R4c', 'test serialisation stores string arguments unchanged, in order', r4c),
     Rule('C03.R5a', 'eval_custom_target_command: only whitelisted rewrites', r5a),
     Rule('C03.R5b', 'escape_extra_args: backslash doubling under the -D//D guard, per-target args only', r5b),
+    Rule('C03.R7', 'exe-wrapper response file: name digest is taken over the text written', r7),
     Rule('C03.R6', 'newline in an argument forces the pickled wrapper with the unmodified serialisation', r6),
 ]
